@@ -694,6 +694,11 @@ func execGroupKeyQueries(d *xdb, r *hx.Rng) {
 	for _, gb := range [][]string{{"s1", "s2"}, {"s2", "s1"}, {"s1", "n"}, {"n", "s1"}, {"s1", "s2", "n"}, {"s1"}, {"n"}, {"n", "v"}} {
 		d.query("SELECT "+strings.Join(gb, ", ")+", count(*), count(v) FROM g1 GROUP BY "+strings.Join(gb, ", "), "exact", "agg-keys")
 	}
+	// GROUP BY without an aggregate in the select list still groups: one row per distinct key
+	for _, gb := range [][]string{{"s1"}, {"n"}, {"s1", "s2"}, {"n", "v"}, {"s2", "n"}} {
+		d.query("SELECT "+strings.Join(gb, ", ")+" FROM g1 GROUP BY "+strings.Join(gb, ", "), "exact", "group-no-agg")
+		d.query("SELECT "+strings.Join(gb, ", ")+" FROM g1 WHERE n = 1 GROUP BY "+strings.Join(gb, ", ")+" LIMIT 2", "exact", "group-no-agg")
+	}
 	for _, c := range []string{"s1", "s2", "n", "v"} {
 		d.query("SELECT count("+c+") FROM g1", "exact", "agg-lone")
 		d.query("SELECT count("+c+") AS cnt FROM g1 WHERE n = 1", "exact", "agg-lone")
